@@ -179,7 +179,8 @@ def _visitor_semantics(F, b, kind):
     V_, SELF, H_, E_ = ("obj", "v"), ("obj", "self"), ("obj", "h"), ("obj", "e")
     N = 35
     CUSTOM, INVALID = "serde::de::Error::custom", "serde::de::Error::invalid_length"
-    lens = (N,) if kind == "string" else (N, N - 1, N + 1, 0)
+    # the string visitor must hand every input to the text parser, whatever its length (SIZE_IN_BYTES included: raw bytes are not text)
+    lens = (N, 2 * N, 2 * N + 2, 0) if kind == "string" else (N, N - 1, N + 1, 0)
     for L in lens:
         for outcome in (("Ok", H_), ("Err", E_)):
             seen = {"parser": 0}
@@ -202,6 +203,8 @@ def _visitor_semantics(F, b, kind):
                 if x != ("arr", V_):
                     raise evalx.Unknown("array parser applied to %s" % (x,))
                 seen["parser"] += 1
+                if kind == "string":
+                    return ("Ok", ("obj", "hash parsed from the raw binary form"))
                 return outcome
 
             def str_parser(x, opt):
